@@ -81,6 +81,10 @@ def run(tier, seed):
         recs = r["records"].get("REPLAY", [])
         res.extra["simulated_long_programs"] = len(recs)
         behaviours += [to_behaviour(len(behaviours) + i, x) for i, x in enumerate(recs)]
+    # ---- the step events of a spread of these programs (stack steps are never dispatched, a failing `stack` step
+    # ---- leaves an empty stack, other steps leave the depth alone, count = minimum) against spec/Runtime.tla
+    import rtlib
+    rtlib.check_harness(res, PROP, [b for b in behaviours if b.get("kind") != "wellformed"], 1500 if tier == "quick" else 15000)
     summary, mism = scriptlib.replay_scripts(PROP, behaviours)
     res.behaviours_replayed = summary["behaviours"] - len(mism)
     res.evaluations = summary["evaluations"]
